@@ -130,3 +130,4 @@ Fixpoint snaps_monotone (l : list snapshot) : bool :=
 Definition verdicts4 (codes : list code) (tick : Z) (with_time : bool) (ops : list op) (impl : list snapshot)
   : bool * bool * bool * bool :=
   (verdicts codes tick with_time ops impl, forallb (snap_wf codes) impl && snaps_monotone impl).
+
